@@ -35,7 +35,7 @@ RULE = ("pipeline: filter lists of 0-4 entries over {h,x,u,trim,entity,str,unico
         "quick: all lists of <=2 plus a seeded sample of 3-4) x default_filters "
         "{None,[],[str],[f],[f,g]} x page expression_filter {absent,g,n,'g,n'} x site {expression, def filter=, "
         "block filter=, <%text filter=>, buffered def + buffer_filters {[],[g],[f,n],[trim,f]}}; smaller streams: <%call expr> under "
-        "all 20 configurations, cached defs (buffered or not) x buffer_filters, built-in flags x strict_undefined; non-trivial = at least "
+        "all 20 configurations, cached defs (buffered or not) and buffered blocks (named, anonymous; rendered in place) x buffer_filters, built-in flags x strict_undefined; non-trivial = at least "
         "two pipeline sources contribute or `n` is present; distinct = distinct (site, D, P, B, list). "
         "scanner: every concatenation of <=k tokens over { } ( ) [ ] | ' \" ''' \"\"\" \\ # \\n a (quick k=4 for both "
         "terminator sets; thorough k=5 for both, k=6 for `|`,`}` and a 1/8 phase of k=6 for `}`, a 1/64 phase of k=7), "
@@ -75,6 +75,7 @@ BUFS = [[], ["g"], ["f", "n"], ["trim", "f"]]
 REPR_CFGS = [(None, None), (["f", "g"], "g,n"), ([], "g"), (["f"], "n")]
 TARGET = "__M_buf.getvalue()"
 CACHED_SITES = ("cachedef", "cachedefnb")     # cached + buffered, cached only
+BUFFERED_SITES = ("bufdef", "bufblock", "anonbufblock")   # write_def_finish(buffered=True, cached=False)
 
 
 def all_lists(k):
@@ -105,6 +106,11 @@ def build_template(site, P, lists, call=True):
             out.append("${x | %s}" % ", ".join(fs) if fs else "${x}")
         elif site == "text":
             out.append('<%%text filter="%s"> <t&"é>${y} </%%text>' % attr_text(fs) if fs else '<%text> <t&"é>${y} </%text>')
+        elif site in ("bufblock", "anonbufblock"):
+            nm = ' name="b%d"' % k if site == "bufblock" else ""
+            fa = ' filter="%s"' % attr_text(fs) if fs else ""
+            # anonymous blocks are named after their line: one per line (the newline is dropped again below)
+            out.append('%s<%%block%s buffered="True"%s> <b&"é> </%%block>' % ("\n" if site == "anonbufblock" else "", nm, fa))
         elif site == "block":
             out.append('<%%block name="b%d" filter="%s"> <b&"é> </%%block>' % (k, attr_text(fs)) if fs
                        else '<%%block name="b%d"> <b&"é> </%%block>' % k)
@@ -192,6 +198,21 @@ def real_exprs(site, D, P, B, lists):
                 pair.append(canon(_CacheCall().visit(hits[0])))
             res[k] = pair
         return res
+    if site == "anonbufblock":
+        # anonymous blocks are nested functions of render_body named after their template line
+        byname = {n.name: n for n in ast.walk(funcs["render_body"]) if isinstance(n, ast.FunctionDef)}
+        lines = [1 + src.count("\n", 0, m.start()) for m in re.finditer("<%block ", src)]
+        if len(lines) != len(lists):
+            raise AssertionError("%d anonymous blocks for %d cases" % (len(lines), len(lists)))
+        for k, ln in enumerate(lines):
+            fn = byname["__M_anon_%d" % ln]
+            v = _Ordered()
+            v.visit(fn)
+            hits = [val for kind, val in v.events if kind in ("write", "return") and TARGET in ast.unparse(val)]
+            if len(hits) != 1:
+                raise AssertionError("%d filter expressions in %s" % (len(hits), fn.name))
+            res[k] = canon(hits[0])
+        return res
     if site in ("expr", "text", "call"):
         v = _Ordered()
         v.visit(funcs["render_body"])
@@ -212,7 +233,7 @@ def real_exprs(site, D, P, B, lists):
                         res[cur] = canon(val)
     else:
         for k in range(len(lists)):
-            fn = funcs["render_%s%d" % ("b" if site == "block" else "d", k)]
+            fn = funcs["render_%s%d" % ("b" if site in ("block", "bufblock") else "d", k)]
             v = _Ordered()
             v.visit(fn)
             for kind, val in v.events:
@@ -261,7 +282,7 @@ def model_requests(site, D, P, B, lists):
             reqs.append([squeeze("pipe deffin %d 1 %s %s %s %s" % (b, enc(TARGET), cfg, lst_fields(args), lst_fields(list(B)))),
                          squeeze("pipe cachedeco %d %s %s %s" % (b, enc("CACHED"), cfg, lst_fields(list(B))))])
         else:
-            reqs.append([squeeze("pipe deffin %d 0 %s %s %s %s" % (1 if site == "bufdef" else 0, enc(TARGET), cfg,
+            reqs.append([squeeze("pipe deffin %d 0 %s %s %s %s" % (1 if site in BUFFERED_SITES else 0, enc(TARGET), cfg,
                                                                 lst_fields(args), lst_fields(list(B))))])
     return reqs
 
@@ -280,8 +301,8 @@ def classify(site, D, P, B, fs):
         return "call:%d-sources" % ((1 if d else 0) + (1 if p else 0))
     if site in CACHED_SITES:
         return "%s:%s" % (site, ("B+F" if (B and fs) else "B" if B else "F" if fs else "none"))
-    if site == "bufdef":
-        return "bufdef:%s" % ("B+F" if (B and fs) else "B" if B else "F" if fs else "none")
+    if site in BUFFERED_SITES:
+        return site + ":%s" % ("B+F" if (B and fs) else "B" if B else "F" if fs else "none")
     return "%s:%s" % (site, "n" if "n" in fs else "filtered" if fs else "unfiltered")
 
 
@@ -290,7 +311,7 @@ def nontrivial_pipe(site, D, P, B, fs):
     p = page_args(P)
     if "n" in fs or "n" in p:
         return True
-    n = (1 if fs else 0) + (1 if (site == "expr" and d) else 0) + (1 if (site == "expr" and p) else 0) + (1 if (site == "bufdef" and B) else 0)
+    n = (1 if fs else 0) + (1 if (site == "expr" and d) else 0) + (1 if (site == "expr" and p) else 0) + (1 if (site in BUFFERED_SITES and B) else 0)
     return n >= 2
 
 
@@ -428,7 +449,7 @@ def documented_chain(site, D, P, B, fs):
         chain = p + []
         if "n" not in chain:
             chain = d + chain
-    elif site in ("bufdef", "cachedef"):
+    elif site in BUFFERED_SITES or site == "cachedef":
         chain = list(fs) + list(B)
     else:
         chain = list(fs)
@@ -437,7 +458,7 @@ def documented_chain(site, D, P, B, fs):
 
 X0 = ' <v&"é> '
 BODY = {"text": ' <t&"é>${y} ', "block": ' <b&"é> ', "def": ' <d&"é> ', "bufdef": ' <d&"é> ',
-        "cachedef": ' <d&"é> ', "cachedefnb": ' <d&"é> '}
+        "cachedef": ' <d&"é> ', "cachedefnb": ' <d&"é> ', "bufblock": ' <b&"é> ', "anonbufblock": ' <b&"é> '}
 
 
 def expected_output(site, D, P, B, fs, x=None):
@@ -484,6 +505,8 @@ def render_cases(site, D, P, B, lists, how, x=None, strict=False):
     for i in range(1, len(parts) - 1, 2):
         if parts[i] != "end":
             res[int(parts[i])] = parts[i + 1]
+    if site == "anonbufblock":
+        res = {k: (v[1:] if v.startswith("\n") else "missing line break: %r" % v) for k, v in res.items()}
     return [("ok", res.get(k)) for k in range(len(lists))]
 
 
@@ -1161,7 +1184,7 @@ def pipe_jobs(ctx):
             orc.append(("call", D, P, B0, [[]], "import", (False, True)))
     for (D, P) in REPR_CFGS:
         for B in BUFS:
-            for site in CACHED_SITES:
+            for site in CACHED_SITES + ("bufblock", "anonbufblock"):
                 for ch in chunks(few, 200):
                     corr.append((site, D, P, B, ch))
                     orc.append((site, D, P, B, ch, "import" if i % 2 else "context", (False, True)))
